@@ -313,6 +313,21 @@ func checkHeaders(j *job.Job, s *job.Sink, c int64, hs []hdr, imp hdr, importer 
 		if len(rej) > 0 {
 			bad("unrevisioned-rejected-after-revisioned", fmt.Sprintf("load order %v: %s", p, o), nil)
 		}
+		// One set in three is then offered a text with two modules: a still newer revision of
+		// the first name, and a module that is rejected. The load fails, and the tables must be
+		// what they were: the bare name denotes what it denoted, nothing is filed under the
+		// new full name.
+		if c%3 == 0 {
+			nm := hs[0].Name
+			multi := fmt.Sprintf("module %s { namespace \"urn:%s\"; prefix p; revision 2099-01-01; leaf mark99 { type string; } identity idm; typedef tdm { type string; } }\nmodule zzbad { namespace \"urn:zzbad\"; prefix zb; frobnicate y; }\n", nm, nm)
+			if err := ms.Parse(multi, "multi.yang"); err == nil {
+				bad("rejected-text-accepted", fmt.Sprintf("load order %v: a text whose second module is rejected was accepted", p), nil)
+			}
+			if ms.Modules[nm+"@2099-01-01"] != nil || ms.Modules["zzbad"] != nil {
+				bad("rejected-text-leaves-modules", fmt.Sprintf("load order %v: modules of a rejected text are in the table", p), nil)
+			}
+			s.Count("rejected_multi_module_texts", 1)
+		}
 		for _, h := range hs {
 			full := h.Name
 			if h.latest() != "" {
@@ -739,7 +754,9 @@ func Split(j *job.Job, s *job.Sink) {
 		var all []*schema.Mod
 		moved := 0
 		for _, m := range g.Mods {
-			subs := schema.Split(r, m, 1+r.Intn(5))
+			n0 := schema.NestedOnlyIncludes
+			subs := schema.SplitOpt(r, m, 1+r.Intn(5), len(g.Mods) == 1)
+			s.Count("includes_left_to_a_submodule", int64(schema.NestedOnlyIncludes-n0))
 			for _, sm := range subs {
 				moved += len(sm.Body.Items) + len(sm.Body.Typedefs) + len(sm.Body.Groupings)
 			}
